@@ -2,8 +2,9 @@
 // own load() and run() on a Verilated `hex` built with --public-flat-rw, so that a power-on state can be planted
 // after construction (C13) and console input/output can be captured exactly (C06).
 //   tb_harness <bin> <seed> <maxcycles> [plant...]     stdin = console input of the program
-//   plant: pc=<n> areg=<n> breg=<n> oreg=<n> mem:<word>=<value> fill=<byte>   (fill: every memory word outside the
-//          image gets the repeated byte before planting; registers keep Verilator's random reset unless planted)
+//   plant: pc=<n> areg=<n> breg=<n> oreg=<n> mem:<word>=<value> fill=<byte>   (fill: the whole memory gets the repeated
+//          byte BEFORE load(), i.e. it stands for the power-on contents -- load() is expected to clear it; mem: plants a
+//          word AFTER load(); registers keep Verilator's random reset unless planted)
 // Output:  RC <run() result> / CONSUMED <bytes of input read> / OUT <n> <bytes written to cout after load's banner>
 //          IMAGE_INTACT 0|1 and REGS at the first post-reset fetch are reported by the `probe` variant (see below).
 #undef main
@@ -19,6 +20,7 @@
 #include <vector>
 #include <algorithm>
 #include <verilated.h>
+#include <verilated_sym_props.h>
 #include "Vhex_pkg.h"
 #include "Vhex_pkg_hex.h"
 #include "Vhex_pkg_memory.h"
@@ -26,6 +28,12 @@
 
 void load(const char *filename, const std::unique_ptr<Vhex_pkg> &top);
 int run(const std::unique_ptr<VerilatedContext> &contextp, const std::unique_ptr<Vhex_pkg> &top, bool trace, size_t maxCycles);
+
+static void plantBit(VerilatedContext *ctx, const char *scope, const char *name, unsigned v) {
+  const VerilatedScope *sc = ctx->scopeFind(scope);
+  VerilatedVar *var = sc ? sc->varFind(name) : nullptr;
+  if (var && var->datap()) *reinterpret_cast<uint8_t *>(var->datap()) = v & 1;
+}
 
 int main(int argc, char **argv) {
   if (argc < 4) { std::cerr << "usage: tb_harness <bin> <seed> <maxcycles> [plant...]\n"; return 2; }
@@ -53,7 +61,7 @@ int main(int argc, char **argv) {
       // size of what load() reads: the words the header announces (as far as the file holds them)
       { std::ifstream f(bin, std::ios::binary); f.seekg(0, std::ios::end); size_t rest = (size_t)f.tellg() - 4; f.seekg(0);
         uint32_t hw = 0; f.read(reinterpret_cast<char*>(&hw), 4); imageBytes = std::min((size_t)hw * 4, rest); }
-      // optional fill of non-image memory before load
+      // optional power-on contents of the memory (before load, which is expected to clear them)
       for (int i = 4; i < argc; i++) {
         std::string a = argv[i];
         if (a.rfind("fill=", 0) == 0) {
@@ -71,10 +79,12 @@ int main(int argc, char **argv) {
         else if (a.rfind("oreg=", 0) == 0) top->hex->u_processor->oreg_q = val(5);
         // Verilator's first eval() takes the "previous" clock/reset of each always_ff block from these module-local copies,
         // which are part of the random power-on state: plant them to decide whether the time-1 edge is seen
-        else if (a.rfind("pclk=", 0) == 0) top->hex->u_processor->i_clk = val(5) & 1;
-        else if (a.rfind("mclk=", 0) == 0) top->hex->u_memory->i_clk = val(5) & 1;
-        else if (a.rfind("prst=", 0) == 0) top->hex->u_processor->i_rst = val(5) & 1;
-        else if (a.rfind("mrst=", 0) == 0) top->hex->u_memory->i_rst = val(5) & 1;
+        // (looked up by name: a design whose memory or processor has no such port any more still builds and runs -- the plant is
+        // then without effect, which is what it means for that design)
+        else if (a.rfind("pclk=", 0) == 0) plantBit(contextp.get(), "TOP.hex.u_processor", "i_clk", val(5) & 1);
+        else if (a.rfind("mclk=", 0) == 0) plantBit(contextp.get(), "TOP.hex.u_memory", "i_clk", val(5) & 1);
+        else if (a.rfind("prst=", 0) == 0) plantBit(contextp.get(), "TOP.hex.u_processor", "i_rst", val(5) & 1);
+        else if (a.rfind("mrst=", 0) == 0) plantBit(contextp.get(), "TOP.hex.u_memory", "i_rst", val(5) & 1);
         else if (a.rfind("mem:", 0) == 0) {
           size_t eq = a.find('=');
           uint32_t w = strtoul(a.c_str() + 4, 0, 0);
@@ -94,6 +104,10 @@ int main(int argc, char **argv) {
         probeLine = "PROBE pc=" + std::to_string((unsigned)top->hex->u_processor->pc_q) + " areg=" + std::to_string((unsigned)top->hex->u_processor->areg_q)
                   + " breg=" + std::to_string((unsigned)top->hex->u_processor->breg_q) + " oreg=" + std::to_string((unsigned)top->hex->u_processor->oreg_q)
                   + " image_intact=" + (intact ? "1" : "0");
+        // every word outside the image is zero (load() clears the memory; nothing is stored during reset)
+        bool restZero = true;
+        for (size_t w = (imageBytes + 3) / 4; w < sizeof(top->hex->u_memory->memory_q) / sizeof(uint32_t); w++) if (top->hex->u_memory->memory_q[w] != 0) { restZero = false; break; }
+        probeLine += std::string(" rest_zero=") + (restZero ? "1" : "0");
       } else {
         rc = run(contextp, top, false, maxCycles);
       }
